@@ -6,7 +6,7 @@
    Latin-1 targets, for both settings of the out-of-range flag.                          *)
 From Coq Require Import NArith ZArith List Bool.
 From ST Require Import Base.Outcome Base.Units Utf.Spec Utf.Tokens Utf.Model Utf.ProofsC01 Utf.ApiCoverage.
-From ST Require Gen.Leaf Utf.LoopBridge Utf.LoopBridgeExtract.
+From ST Require Gen.Leaf Utf.LoopBridge Utf.LoopBridgeExtract Utf.LoopBridgeWrite.
 Import ListNotations.
 Local Open Scope N_scope.
 
@@ -103,3 +103,16 @@ Proof.
                                  (fun A => ST.Utf.LoopBridgeExtract.extract_utf16_matches s i p Hne A R)).
 Qed.
 Print Assumptions decoders_match_source.
+
+(* ---- tie by translation, encoders: write_utf8(char *&dest, ch) and write_utf16(char16_t *&dest, ch) — the encoding step of
+   every X -> UTF-8 / UTF-16 conversion — are translated from the CURRENT headers into Gen/Leaf.v (dest is a write-only
+   cursor: the translated function returns its conversion_error_t and the list of units it stored, in order).  For every
+   32-bit code unit, given room for the stored units, the model encoders of every theorem above push exactly those
+   units (as unsigned bytes / 16-bit units) and return that code (write_ok) ---- *)
+Theorem encoders_match_source : forall n, n < 4294967296 ->
+  ST.Utf.LoopBridgeWrite.write_ok (fun d => write_utf8 d n) (ST.Gen.Leaf.src_write_utf8 (Z.of_N n)) ST.Utf.LoopBridgeWrite.byte_of /\
+  ST.Utf.LoopBridgeWrite.write_ok (fun d => write_utf16 d n) (ST.Gen.Leaf.src_write_utf16 (Z.of_N n)) ST.Utf.LoopBridgeWrite.unit16_of.
+Proof.
+  exact (fun n H => conj (ST.Utf.LoopBridgeWrite.write_utf8_matches_source n H) (ST.Utf.LoopBridgeWrite.write_utf16_matches_source n H)).
+Qed.
+Print Assumptions encoders_match_source.
